@@ -406,6 +406,15 @@ impl<R: Round, const B: Word> FBig<R, B> {
             return Exact(shl_digits::<B>(&self.repr.significand, self.repr.exponent as usize));
         }
 
+        if self.repr.smaller_than_one() {
+            // |self| < 1 / B^2 <= 1/4: count one digit more than the significand has, so that the
+            // fraction handed to the rounding is below one half (the precision of the context is not
+            // the number of fractional digits here)
+            let digits = self.repr.digits() + 1;
+            let adjust = R::round_fract::<B>(&IBig::ZERO, self.repr.significand.clone(), digits);
+            return Inexact(IBig::ZERO + adjust, adjust);
+        }
+
         let (hi, lo, precision) = self.split_at_point_internal();
         let adjust = R::round_fract::<B>(&hi, lo, precision);
         Inexact(hi + adjust, adjust)
